@@ -175,17 +175,30 @@ Proof.
         destruct (decide (dst = host /\ _)) as [[Hy _]|_]; [contradiction|]. rewrite app_nil_r. reflexivity.
 Qed.
 
-(* VJoin *)
+(* VJoin.  Since the repair of S21 (8f66353) [VJoin c] is [VSend host] ([vflush_host]) followed by the former
+   join, [vjoin0].  [vstep0] = [vstep] with the former join: the step lemmas below are proved for [vstep0]
+   and lifted to [vstep] through [vstep_split] / [lift_step]. *)
 Definition snapshot (s : vstate) : list value := match pcur s host with Some v => [v] | None => [] end.
 
-Lemma step_join s c s' :
-  vstep s (VJoin c) = Some s' ->
+Definition vjoin0 (s : vstate) (c : peer) : option vstate :=
+  if (c =? host)%N || bool_decide (c ∈ vconn s) || pexists s c then None
+  else Some (VState (<[c := vpeer0]> (vp s)) (vconn s ++ [c])
+                    (match pcur s host with
+                     | Some v => push_link (vlinks s) host c [v]
+                     | None => vlinks s
+                     end)).
+
+Definition vstep0 (s : vstate) (e : vevent) : option vstate :=
+  match e with VJoin c => vjoin0 s c | _ => vstep s e end.
+
+Lemma step_join0 s c s' :
+  vjoin0 s c = Some s' ->
   c <> host /\ c ∉ vconn s /\ vp s !! c = None /\ vconn s' = vconn s ++ [c] /\
   (forall q, is_Some (vp s' !! q) <-> is_Some (vp s !! q) \/ q = c) /\
   (forall q, getp s' q = getp s q) /\
   (forall a b, link s' a b = if decide ((a, b) = (host, c)) then link s host c ++ snapshot s else link s a b).
 Proof.
-  simpl. destruct (c =? host)%N eqn:Hc; [discriminate|]. apply N.eqb_neq in Hc.
+  unfold vjoin0. destruct (c =? host)%N eqn:Hc; [discriminate|]. apply N.eqb_neq in Hc.
   destruct (bool_decide (c ∈ vconn s)) eqn:Hin; [discriminate|]. apply bool_decide_eq_false in Hin.
   unfold pexists. destruct (bool_decide (is_Some (vp s !! c))) eqn:Hex; [discriminate|].
   apply bool_decide_eq_false in Hex. simpl. intros [= <-].
@@ -200,6 +213,76 @@ Proof.
   - intros a b. unfold link, snapshot. simpl. destruct (pcur s host) as [v|].
     + apply lget_push_link.
     + destruct (decide _) as [Heq|_]; [|reflexivity]. inversion Heq; subst. rewrite app_nil_r. reflexivity.
+Qed.
+
+(* the flush of the host's queue *)
+Lemma vflush_host_conn s : vconn (vflush_host s) = vconn s.
+Proof. unfold vflush_host. destruct (vp s !! host) as [x|]; [|reflexivity]. destruct (outq x); reflexivity. Qed.
+
+Lemma vflush_host_lookup s c : c <> host -> vp (vflush_host s) !! c = vp s !! c.
+Proof.
+  intros Hc. unfold vflush_host. destruct (vp s !! host) as [x|]; [|reflexivity].
+  destruct (outq x); [reflexivity|]. simpl. apply lookup_insert_ne. congruence.
+Qed.
+
+Lemma vflush_host_exists s q : is_Some (vp (vflush_host s) !! q) <-> is_Some (vp s !! q).
+Proof.
+  destruct (decide (q = host)) as [->|Hne]; [|rewrite vflush_host_lookup by exact Hne; reflexivity].
+  unfold vflush_host. destruct (vp s !! host) as [x|] eqn:Hx; [|rewrite Hx; reflexivity].
+  destruct (outq x); [rewrite Hx; reflexivity|]. simpl. rewrite lookup_insert. split; eauto.
+Qed.
+
+Lemma vflush_host_send s : is_Some (vp s !! host) -> vstep s (VSend host) = Some (vflush_host s).
+Proof. intros [x Hx]. unfold vflush_host. cbn [vstep]. rewrite Hx. destruct (outq x); reflexivity. Qed.
+
+Lemma vflush_host_idle s : poutq s host = [] -> vflush_host s = s.
+Proof.
+  unfold poutq, getp, vflush_host. destruct (vp s !! host) as [x|]; [|reflexivity]. simpl. intros ->. reflexivity.
+Qed.
+
+(* the host's record and the links after the flush: those of [VSend host] *)
+Lemma vflush_host_getp s q :
+  getp (vflush_host s) q =
+  if decide (q = host) then VPeer (pcur s host) (pdirty s host) (ptoken s host) [] else getp s q.
+Proof.
+  destruct (decide (q = host)) as [->|Hne].
+  - unfold pcur, pdirty, ptoken, getp, vflush_host. destruct (vp s !! host) as [x|] eqn:Hx.
+    + destruct (outq x) eqn:Hq; [rewrite Hx; destruct x; simpl in *; subst; reflexivity|].
+      simpl. rewrite lookup_insert. reflexivity.
+    + rewrite Hx. reflexivity.
+  - unfold getp. rewrite vflush_host_lookup by exact Hne. reflexivity.
+Qed.
+
+Lemma vflush_host_cur s q : pcur (vflush_host s) q = pcur s q.
+Proof. unfold pcur at 1. rewrite vflush_host_getp. destruct (decide (q = host)) as [->|]; reflexivity. Qed.
+
+Lemma vflush_host_outq s : poutq (vflush_host s) host = [].
+Proof. unfold poutq. rewrite vflush_host_getp. destruct (decide (host = host)); [reflexivity|congruence]. Qed.
+
+(* [VJoin c] = flush, then the former join *)
+Lemma join_split s c : vstep s (VJoin c) = vjoin0 (vflush_host s) c.
+Proof.
+  unfold vjoin0. cbn [vstep]. rewrite vflush_host_conn.
+  destruct (c =? host)%N eqn:Hc; [reflexivity|]. apply N.eqb_neq in Hc.
+  unfold pexists. rewrite (vflush_host_lookup s c Hc). reflexivity.
+Qed.
+
+Lemma join_noflush s c : poutq s host = [] -> vstep s (VJoin c) = vjoin0 s c.
+Proof. intros H. rewrite join_split, (vflush_host_idle s H). reflexivity. Qed.
+
+Lemma step_join s c s' :
+  vstep s (VJoin c) = Some s' ->
+  c <> host /\ c ∉ vconn s /\ vp s !! c = None /\ vconn s' = vconn s ++ [c] /\
+  (forall q, is_Some (vp s' !! q) <-> is_Some (vp s !! q) \/ q = c) /\
+  (forall q, pcur s' q = pcur s q) /\
+  vjoin0 (vflush_host s) c = Some s'.
+Proof.
+  rewrite join_split. intros Hstep. pose proof Hstep as Hstep0.
+  apply step_join0 in Hstep as (Hc & Hin & Hnone & Hcn & Hex & Hg & _).
+  rewrite vflush_host_conn in Hin, Hcn. rewrite vflush_host_lookup in Hnone by exact Hc.
+  split; [exact Hc|]. split; [exact Hin|]. split; [exact Hnone|]. split; [exact Hcn|]. split; [|split; [|exact Hstep0]].
+  - intros q. rewrite Hex, vflush_host_exists. reflexivity.
+  - intros q. unfold pcur at 1. rewrite Hg. apply vflush_host_cur.
 Qed.
 
 (* ================================================================================================
@@ -218,9 +301,9 @@ Proof.
   destruct (wf_link s a b Hwf) as [[_ H]|[_ H]]; [rewrite Hl; discriminate|contradiction|contradiction].
 Qed.
 
-Lemma step_wf s e s' : vwf s -> vstep s e = Some s' -> vwf s'.
+Lemma step_wf0 s e s' : vwf s -> vstep0 s e = Some s' -> vwf s'.
 Proof.
-  intros Hwf Hstep. pose proof Hwf as (Hnd & Hh & Hex & Hlk). destruct e as [p v|p|p|src dst|c].
+  intros Hwf Hstep. pose proof Hwf as (Hnd & Hh & Hex & Hlk). destruct e as [p v|p|p|src dst|c]; cbn [vstep0] in Hstep.
   - apply step_write in Hstep as (_ & Hc & Hl & He & _).
     unfold vwf, link. rewrite Hc, Hl. repeat split; try assumption.
     + intros H. apply Hex, He, H. + intros H. apply He, Hex, H.
@@ -245,7 +328,7 @@ Proof.
         -- intros _. left. split; [reflexivity|]. apply elem_of_others in Hin. tauto.
         -- rewrite app_nil_r. destruct (decide ((a, b) = (src, dst))) as [Heq|_]; [|apply Hlk].
            inversion Heq; subst. intros _. apply Hlk. rewrite Hl0. discriminate.
-  - apply step_join in Hstep as (Hc0 & Hcn & Hnone & Hc & He & _ & Hl).
+  - apply step_join0 in Hstep as (Hc0 & Hcn & Hnone & Hc & He & _ & Hl).
     unfold vwf. rewrite Hc. split; [|split; [|split]].
     + apply NoDup_app. split; [exact Hnd|]. split; [|apply NoDup_singleton].
       intros x Hx Hx'. apply elem_of_list_singleton in Hx'. subst. contradiction.
@@ -255,6 +338,45 @@ Proof.
       destruct (decide ((a, b) = (host, c))) as [Heq|_].
       * inversion Heq; subst. intros _. left. auto.
       * intros H. apply Hlk in H. tauto.
+Qed.
+
+(* one step of [vstep] in terms of [vstep0] *)
+Lemma vstep_split s e s' :
+  vwf s -> vstep s e = Some s' ->
+  match e with
+  | VJoin c => vstep0 s (VSend host) = Some (vflush_host s) /\ vstep0 (vflush_host s) (VJoin c) = Some s'
+  | _ => vstep0 s e = Some s'
+  end.
+Proof.
+  intros Hwf Hstep. destruct e as [p v|p|p|src dst|c]; try exact Hstep.
+  split; [|cbn [vstep0]; rewrite <- join_split; exact Hstep].
+  cbn [vstep0]. apply vflush_host_send. apply (proj1 (proj2 (proj2 Hwf)) host). left. reflexivity.
+Qed.
+
+Lemma step_wf s e s' : vwf s -> vstep s e = Some s' -> vwf s'.
+Proof.
+  intros Hwf Hstep. apply (vstep_split _ _ _ Hwf) in Hstep.
+  destruct e; try (eapply step_wf0; eassumption).
+  destruct Hstep as [H1 H2]. eapply step_wf0; [|exact H2]. eapply step_wf0; eassumption.
+Qed.
+
+Lemma vflush_host_wf s : vwf s -> vwf (vflush_host s).
+Proof.
+  intros Hwf. apply (step_wf s (VSend host)); [exact Hwf|].
+  apply vflush_host_send. apply (proj1 (proj2 (proj2 Hwf)) host). left. reflexivity.
+Qed.
+
+(* an invariant preserved by every [vstep0] (for the events allowed by [ok], which allows [VSend host]) is
+   preserved by every [vstep] *)
+Lemma lift_step (I : vstate -> Prop) (ok : vevent -> Prop) :
+  ok (VSend host) ->
+  (forall s e s', vwf s -> I s -> ok e -> vstep0 s e = Some s' -> I s') ->
+  forall s e s', vwf s -> I s -> ok e -> vstep s e = Some s' -> I s'.
+Proof.
+  intros Hoks H0 s e s' Hwf HI Hok Hstep. apply (vstep_split _ _ _ Hwf) in Hstep.
+  destruct e; try (eapply H0; eassumption).
+  destruct Hstep as [H1 H2]. eapply (H0 (vflush_host s)); [apply vflush_host_wf, Hwf| |exact Hok|exact H2].
+  eapply H0; [exact Hwf|exact HI|exact Hoks|exact H1].
 Qed.
 
 Lemma run_wf s tr s' : vwf s -> vrun s tr = Some s' -> vwf s'.
@@ -348,9 +470,9 @@ Qed.
 Lemma detect'_token x : token x = false -> token (detect' x) = false.
 Proof. intros Ht. unfold detect', vdetect. rewrite Ht. destruct (dirty x || false); simpl; auto. Qed.
 
-Lemma disc_step w s e s' : vwf s -> Disc w s -> ev_ok w e -> vstep s e = Some s' -> Disc w s'.
+Lemma disc_step0 w s e s' : vwf s -> Disc w s -> ev_ok w e -> vstep0 s e = Some s' -> Disc w s'.
 Proof.
-  intros Hwf [HA HB HC HU] Hok Hstep. destruct e as [p v|p|p|src dst|c]; simpl in Hok.
+  intros Hwf [HA HB HC HU] Hok Hstep. destruct e as [p v|p|p|src dst|c]; simpl in Hok; cbn [vstep0] in Hstep.
   - subst p. apply step_write in Hstep as (_ & _ & Hl & _ & Hp & Hq).
     split; unfold pdirty, poutq, ptoken, link in *.
     + intros p Hne. rewrite Hq by exact Hne. apply HA, Hne.
@@ -412,7 +534,7 @@ Proof.
         -- rewrite HU by exact Hne. simpl.
            destruct (decide (dst = host /\ c = host /\ host ∈ others src (vconn s))) as [(_ & _ & Hin)|_]; [|reflexivity].
            apply elem_of_others in Hin as [_ Hin]. exfalso. apply (wf_host s Hwf Hin).
-  - apply step_join in Hstep as (Hch & Hcn & _ & _ & _ & Hq & Hl).
+  - apply step_join0 in Hstep as (Hch & Hcn & _ & _ & _ & Hq & Hl).
     split; unfold pdirty, poutq, ptoken in *.
     + intros q Hne. rewrite Hq. apply HA, Hne.
     + rewrite Hq. exact HB.
@@ -421,6 +543,9 @@ Proof.
     + intros a Hne. rewrite Hl. destruct (decide ((a, host) = (host, c))) as [Heq|_]; [|apply HU, Hne].
       inversion Heq; subst. contradiction.
 Qed.
+
+Lemma disc_step w s e s' : vwf s -> Disc w s -> ev_ok w e -> vstep s e = Some s' -> Disc w s'.
+Proof. apply (lift_step (Disc w) (ev_ok w)); [exact I|]. intros s0 e0 s1. apply disc_step0. Qed.
 
 Lemma quiescent_disc w s : vquiescent s -> Disc w s.
 Proof.
@@ -590,9 +715,9 @@ Proof.
     + intros Hd. rewrite Hcur. apply (conv_n _ _ HC). rewrite <- Hdir. exact Hd.
 Qed.
 
-Lemma conv_join w s c s' : vwf s -> Conv w s -> vstep s (VJoin c) = Some s' -> Conv w s'.
+Lemma conv_join0 w s c s' : vwf s -> Conv w s -> vjoin0 s c = Some s' -> Conv w s'.
 Proof.
-  intros Hwf HC Hstep. apply step_join in Hstep as (Hch & Hcn & Hnone & Hcn' & _ & Hq & Hl).
+  intros Hwf HC Hstep. apply step_join0 in Hstep as (Hch & Hcn & Hnone & Hcn' & _ & Hq & Hl).
   assert (Hcur : forall q, pcur s' q = pcur s q) by (intros; unfold pcur; rewrite Hq; reflexivity).
   assert (Hdir : forall q, pdirty s' q = pdirty s q) by (intros; unfold pdirty; rewrite Hq; reflexivity).
   assert (Hout : forall q, poutq s' q = poutq s q) by (intros; unfold poutq; rewrite Hq; reflexivity).
@@ -686,13 +811,13 @@ Qed.
 
 (* ---------- the phase invariant is inductive ------------------------------------------------------ *)
 
-Lemma phase_step w s e s' : vwf s -> Phase w s -> writes_by w e -> vstep s e = Some s' -> Phase w s'.
+Lemma phase_step0 w s e s' : vwf s -> Phase w s -> writes_by w e -> vstep0 s e = Some s' -> Phase w s'.
 Proof.
   intros Hwf [HD HC] Hok Hstep. split.
   - destruct (decide (e = VJoin w)) as [->|Hne].
     + (* w itself joins: nobody has a value yet, the snapshot is empty *)
-      pose proof Hstep as Hstep0.
-      apply step_join in Hstep as (Hwh & Hcn & Hnone & _ & _ & Hq & Hl).
+      pose proof Hstep as Hstep0. cbn [vstep0] in Hstep.
+      apply step_join0 in Hstep as (Hwh & Hcn & Hnone & _ & _ & Hq & Hl).
       assert (Hh : pcur s host = None).
       { pose proof (conv_k1 _ _ HC Hwh) as H1. unfold pdirty, poutq, pcur in H1. rewrite (getp_none _ _ Hnone) in H1.
         rewrite (wf_link_nil s w host Hwf Hcn (wf_host s Hwf)) in H1. simpl in H1. apply H1. reflexivity. }
@@ -704,14 +829,17 @@ Proof.
       * rewrite Hq. exact HB.
       * intros c. rewrite Hlk. apply HI.
       * intros c Hc. rewrite Hlk. apply HU, Hc.
-    + eapply disc_step; eauto. destruct e; simpl in *; auto. congruence.
-  - destruct e as [p v|p|p|src dst|c]; simpl in Hok.
+    + eapply disc_step0; eauto. destruct e; simpl in *; auto. congruence.
+  - destruct e as [p v|p|p|src dst|c]; simpl in Hok; cbn [vstep0] in Hstep.
     + subst p. eapply conv_write; eauto.
     + eapply conv_detect; eauto.
     + eapply conv_send; eauto.
     + eapply conv_deliver; eauto.
-    + eapply conv_join; eauto.
+    + eapply conv_join0; eauto.
 Qed.
+
+Lemma phase_step w s e s' : vwf s -> Phase w s -> writes_by w e -> vstep s e = Some s' -> Phase w s'.
+Proof. apply (lift_step (Phase w) (writes_by w)); [exact I|]. intros s0 e0 s1. apply phase_step0. Qed.
 
 Definition no_write (e : vevent) : Prop := match e with VWrite _ _ => False | _ => True end.
 
@@ -725,7 +853,7 @@ Proof.
     destruct (decide (w = p)) as [->|Hne]; [rewrite Hp; reflexivity|rewrite Hq by exact Hne; reflexivity].
   - apply step_deliver in Hstep as (v & rest & Hl0 & _ & _ & _ & Hq & _); [|apply wf_nodup, Hwf].
     unfold pcur. rewrite Hq; [reflexivity|]. intros ->. rewrite (disc_in _ _ HD) in Hl0. discriminate.
-  - apply step_join in Hstep as (_ & _ & _ & _ & _ & Hq & _). unfold pcur. rewrite Hq. reflexivity.
+  - apply step_join in Hstep as (_ & _ & _ & _ & _ & Hq & _). apply Hq.
 Qed.
 
 (* ---------- quiescence and agreement ---------------------------------------------------------------- *)
@@ -852,8 +980,9 @@ Proof.
         -- rewrite Hcur by congruence. exact H1.
     + intros q Hq0 _. rewrite Hlk. destruct (decide ((host, q) = (host, dst))) as [E|_]; [|exact Hq0].
       inversion E; subst q. congruence.
-  - (* join: one more snapshot *)
-    apply step_join in Hstep as (Hch & Hcn & Hnone & Hcn' & _ & Hq & Hl).
+  - (* join: one more snapshot; the host's queue is empty: nothing to flush *)
+    rewrite (join_noflush s c (proj2 (HI host))) in Hstep.
+    apply step_join0 in Hstep as (Hch & Hcn & Hnone & Hcn' & _ & Hq & Hl).
     assert (Hcur : forall q, pcur s' q = pcur s q) by (intros; unfold pcur; rewrite Hq; reflexivity).
     assert (Hc0 : pcur s c = None) by (unfold pcur; rewrite (getp_none _ _ Hnone); reflexivity).
     assert (Hl0 : link s host c = []) by (apply wf_link_nil; [exact Hwf|apply wf_host, Hwf|exact Hcn]).
@@ -1224,6 +1353,11 @@ Record PosI (w : peer) (W : list value) (D : peer -> list value) (s : vstate) (p
   pi_k2 : w <> host -> forall c, c ∈ vconn s -> c <> w -> chain W (pos c) (link s host c) (pos host)
 }.
 
+Lemma PosI_ext w W D D' s pos : (forall p, D' p = D p) -> PosI w W D s pos -> PosI w W D' s pos.
+Proof.
+  intros He HP. split; try apply HP. intros p Hne. rewrite He. apply (pi_disp _ _ _ _ _ HP), Hne.
+Qed.
+
 Lemma delta_same p s s' : pcur s' p = pcur s p -> delta p s s' = [].
 Proof. intros H. unfold delta. rewrite bool_decide_eq_true_2 by exact H. reflexivity. Qed.
 
@@ -1334,12 +1468,12 @@ Proof.
   - apply chain_nil. exact Hle.
 Qed.
 
-Lemma pos_join w W D s pos c s' :
-  vwf s -> PosI w W D s pos -> (w = host -> poutq s host = []) -> vstep s (VJoin c) = Some s' ->
+Lemma pos_join0 w W D s pos c s' :
+  vwf s -> PosI w W D s pos -> (w = host -> poutq s host = []) -> vjoin0 s c = Some s' ->
   PosI w W (fun q => D q ++ delta q s s') s' pos.
 Proof.
   intros Hwf HP Hclean Hstep. pose proof Hstep as Hstep0.
-  apply step_join in Hstep as (Hch & Hcn & Hnone & Hcn' & _ & Hq & Hl).
+  apply step_join0 in Hstep as (Hch & Hcn & Hnone & Hcn' & _ & Hq & Hl).
   assert (Hcur : forall q, pcur s' q = pcur s q) by (intros; unfold pcur; rewrite Hq; reflexivity).
   assert (Hout : forall q, poutq s' q = poutq s q) by (intros; unfold poutq; rewrite Hq; reflexivity).
   assert (Hl0 : link s host c = []) by (apply wf_link_nil; [exact Hwf|apply wf_host, Hwf|exact Hcn]).
@@ -1348,7 +1482,8 @@ Proof.
   - intros p. rewrite Hcur. apply (pi_cur _ _ _ _ _ HP).
   - apply (pi_le _ _ _ _ _ HP).
   - apply (pi_w _ _ _ _ _ HP).
-  - intros p Hne Hn. apply (pi_non _ _ _ _ _ HP); [exact Hne|]. intros Hp. apply Hn. eapply peers_step; [exact Hstep0|exact Hp].
+  - intros p Hne Hn. apply (pi_non _ _ _ _ _ HP); [exact Hne|]. intros Hp. apply Hn.
+    destruct Hp as [->|Hp]; [left; reflexivity|right; rewrite Hcn'; apply elem_of_app; left; exact Hp].
   - intros p Hne. rewrite delta_same, app_nil_r by apply Hcur. apply (pi_disp _ _ _ _ _ HP), Hne.
   - intros Hwh c' Hc'. rewrite Hcn' in Hc'. rewrite Hl, Hout.
     destruct (decide ((host, c') = (host, c))) as [Heq|Hne].
@@ -1364,6 +1499,22 @@ Proof.
       assert (Hpc : pos c = O) by (apply (pi_non _ _ _ _ _ HP); [exact Hcw|exact Hnp]).
       rewrite Hpc. apply chain_snapshot; [lia|]. apply (pi_cur _ _ _ _ _ HP).
     + apply (pi_k2 _ _ _ _ _ HP); auto. apply elem_of_app in Hc' as [H|H]; [exact H|]. apply elem_of_list_singleton in H. congruence.
+Qed.
+
+(* the join of the repaired code: the host's queue is flushed first ([VSend host]), so the snapshot can no
+   longer overtake a queued announcement: no premise on the host's queue is needed any more *)
+Lemma pos_join w W D s pos c s' :
+  vwf s -> Phase w s -> PosI w W D s pos -> vstep s (VJoin c) = Some s' ->
+  PosI w W (fun q => D q ++ delta q s s') s' pos.
+Proof.
+  intros Hwf Hph HP Hstep.
+  pose proof (vstep_split _ _ _ Hwf Hstep) as [H1 H2]. cbn [vstep0] in H1, H2.
+  pose proof (pos_send w W D s pos host _ Hwf Hph HP H1) as HP0.
+  pose proof (pos_join0 w W _ _ pos c s' (vflush_host_wf s Hwf) HP0 (fun _ => vflush_host_outq s) H2) as HP1.
+  eapply PosI_ext; [|exact HP1]. intros p. cbv beta.
+  assert (Hd : forall a b, delta p a b = if bool_decide (pcur b p = pcur a p) then []
+                                         else match pcur b p with Some v => [v] | None => [] end) by reflexivity.
+  rewrite !Hd, !vflush_host_cur. rewrite (bool_decide_eq_true_2 (pcur s p = pcur s p) eq_refl), app_nil_r. reflexivity.
 Qed.
 
 Lemma disp_deliver W D i j v old :
@@ -1466,11 +1617,6 @@ Qed.
 Definition PosInv (w : peer) (W : list value) (D : peer -> list value) (s : vstate) : Prop :=
   exists pos, PosI w W D s pos.
 
-Lemma PosI_ext w W D D' s pos : (forall p, D' p = D p) -> PosI w W D s pos -> PosI w W D' s pos.
-Proof.
-  intros He HP. split; try apply HP. intros p Hne. rewrite He. apply (pi_disp _ _ _ _ _ HP), Hne.
-Qed.
-
 Lemma only_writer_cons w e tr : only_writer w (e :: tr) -> writes_by w e /\ only_writer w tr.
 Proof.
   unfold only_writer. destruct e; simpl; try (intros H; split; [exact I|exact H]).
@@ -1479,10 +1625,10 @@ Qed.
 
 Lemma C10_general w tr : forall W D s s',
   vwf s -> Phase w s -> PosInv w W D s -> only_writer w tr ->
-  (w = host -> joins_clean s tr = true) -> vrun s tr = Some s' ->
+  vrun s tr = Some s' ->
   vwf s' /\ Phase w s' /\ PosInv w (W ++ written tr) (fun p => D p ++ displayed p s tr) s'.
 Proof.
-  induction tr as [|e tr IH]; intros W D s s' Hwf Hph [pos HP] How Hjc Hrun.
+  induction tr as [|e tr IH]; intros W D s s' Hwf Hph [pos HP] How Hrun.
   - simpl in Hrun. inversion Hrun; subst. split; [exact Hwf|]. split; [exact Hph|].
     exists pos. cbn [written omap displayed]. rewrite app_nil_r.
     eapply PosI_ext; [|exact HP]. intros p. apply app_nil_r.
@@ -1490,9 +1636,6 @@ Proof.
     apply only_writer_cons in How as [Hwe How].
     pose proof (step_wf _ _ _ Hwf Hstep) as Hwf1.
     pose proof (phase_step _ _ _ _ Hwf Hph Hwe Hstep) as Hph1.
-    assert (Hjc1 : w = host -> joins_clean s1 tr = true).
-    { intros Hwh. specialize (Hjc Hwh). cbn [joins_clean] in Hjc. rewrite Hstep in Hjc.
-      destruct e; try exact Hjc. apply andb_prop in Hjc. apply Hjc. }
     assert (Hstep1 : exists W1, W ++ written (e :: tr) = W1 ++ written tr /\
                                 PosInv w W1 (fun p => D p ++ delta p s s1) s1).
     { destruct e as [p v|p|p|src dst|c].
@@ -1502,11 +1645,9 @@ Proof.
       - exists W. split; [reflexivity|]. exists pos. eapply pos_detect; eauto.
       - exists W. split; [reflexivity|]. exists pos. eapply pos_send; eauto.
       - exists W. split; [reflexivity|]. eapply pos_deliver; eauto.
-      - exists W. split; [reflexivity|]. exists pos. eapply pos_join; eauto.
-        intros Hwh. specialize (Hjc Hwh). cbn [joins_clean] in Hjc. rewrite Hstep in Hjc.
-        apply andb_prop in Hjc as [Hjc _]. apply bool_decide_eq_true in Hjc. exact Hjc. }
+      - exists W. split; [reflexivity|]. exists pos. eapply pos_join; eauto. }
     destruct Hstep1 as (W1 & HW & HP1).
-    destruct (IH W1 _ s1 s' Hwf1 Hph1 HP1 How Hjc1 Hrun) as (Hwf' & Hph' & [pos' HP']).
+    destruct (IH W1 _ s1 s' Hwf1 Hph1 HP1 How Hrun) as (Hwf' & Hph' & [pos' HP']).
     split; [exact Hwf'|]. split; [exact Hph'|]. exists pos'. rewrite HW.
     eapply PosI_ext; [|exact HP']. intros p. cbn [displayed]. rewrite Hstep. fold (delta p s s1). apply app_assoc.
 Qed.
@@ -1545,40 +1686,55 @@ Proof. apply omap_app. Qed.
    sublist of [written tr] means: there is a strictly increasing map from the displayed changes to
    positions in [written tr] (see [sublist_positions]): no invented value, an older write never
    reappears after a newer one was shown, coalesced writes are simply skipped.  Holds for clients
-   reached through the host's relay as well.  When the writer is the host, joins must happen while
-   the host's announcement queue is empty ([joins_clean]; see [C10_host_join_refuted]). *)
-Theorem C10_single_writer n w tr s' :
+   reached through the host's relay as well, and -- since the repair of S21 (8f66353: the host's queue
+   is sent before the snapshot is built) -- for a host writer with joins at ANY moment. *)
+Theorem C10_single_writer_any_join n w tr s' :
   vrun (vinit n) tr = Some s' -> only_writer w tr ->
-  (w = host -> joins_clean (vinit n) tr = true) ->
   (forall p v, pcur s' p = Some v -> v ∈ written tr) /\
   (forall p, p <> w -> displayed p (vinit n) tr `sublist_of` written tr).
 Proof.
-  intros Hrun How Hjc.
-  destruct (C10_general w tr [] (fun _ => []) (vinit n) s' (vinit_wf n) (phase_init w n) (posinv_init w n) How Hjc Hrun)
+  intros Hrun How.
+  destruct (C10_general w tr [] (fun _ => []) (vinit n) s' (vinit_wf n) (phase_init w n) (posinv_init w n) How Hrun)
     as (_ & _ & pos & HP).
   simpl in HP. split.
   - intros p v Hv. rewrite (pi_cur _ _ _ _ _ HP) in Hv. eapply at_elem; eauto.
   - intros p Hne. etransitivity; [apply (pi_disp _ _ _ _ _ HP p Hne)|]. apply sublist_take.
 Qed.
+Print Assumptions C10_single_writer_any_join.
+
+(* the statement of before the repair (joins had to happen while the host's queue was empty, [joins_clean]):
+   now a corollary, the premise is not used *)
+Theorem C10_single_writer n w tr s' :
+  vrun (vinit n) tr = Some s' -> only_writer w tr ->
+  (w = host -> joins_clean (vinit n) tr = true) ->
+  (forall p v, pcur s' p = Some v -> v ∈ written tr) /\
+  (forall p, p <> w -> displayed p (vinit n) tr `sublist_of` written tr).
+Proof. intros Hrun How _. exact (C10_single_writer_any_join n w tr s' Hrun How). Qed.
 Print Assumptions C10_single_writer.
 
 Corollary C10_client_writer n w tr s' :
   vrun (vinit n) tr = Some s' -> only_writer w tr -> w <> host ->
   (forall p v, pcur s' p = Some v -> v ∈ written tr) /\
   (forall p, p <> w -> displayed p (vinit n) tr `sublist_of` written tr).
-Proof. intros Hrun How Hw. eapply C10_single_writer; eauto; intros; contradiction. Qed.
+Proof. intros Hrun How _. eapply C10_single_writer_any_join; eauto. Qed.
 
 (* ... at every prefix: what p shows at any moment was written BEFORE that moment *)
+Corollary C10_every_prefix_any_join n w tr1 tr2 s1 :
+  only_writer w (tr1 ++ tr2) ->
+  vrun (vinit n) tr1 = Some s1 ->
+  (forall p v, pcur s1 p = Some v -> v ∈ written tr1) /\
+  (forall p, p <> w -> displayed p (vinit n) tr1 `sublist_of` written tr1).
+Proof.
+  intros How Hrun. eapply C10_single_writer_any_join; eauto. eapply only_writer_app; eauto.
+Qed.
+Print Assumptions C10_every_prefix_any_join.
+
 Corollary C10_every_prefix n w tr1 tr2 s1 :
   only_writer w (tr1 ++ tr2) -> (w = host -> joins_clean (vinit n) (tr1 ++ tr2) = true) ->
   vrun (vinit n) tr1 = Some s1 ->
   (forall p v, pcur s1 p = Some v -> v ∈ written tr1) /\
   (forall p, p <> w -> displayed p (vinit n) tr1 `sublist_of` written tr1).
-Proof.
-  intros How Hjc Hrun. eapply C10_single_writer; eauto.
-  - eapply only_writer_app; eauto.
-  - intros Hwh. eapply joins_clean_prefix; eauto.
-Qed.
+Proof. intros How _ Hrun. exact (C10_every_prefix_any_join n w tr1 tr2 s1 How Hrun). Qed.
 Print Assumptions C10_every_prefix.
 
 (* the monotone map behind "sublist" *)
@@ -1686,28 +1842,42 @@ Example C10_aba_example :
   (fun s => view s [0; 1; 2]) <$> vrun (vinit 2) ex_aba = Some ([Some 10; Some 10; Some 10], true).
 Proof. vm_compute. auto. Qed.
 
-(* REFUTED as stated for a host writer with unrestricted joins: the host detects a (queued), writes b,
-   a client joins and gets the snapshot b, THEN the queued a is broadcast: the new client shows b, a, (b). *)
-Definition ex_host_join : list vevent :=
+(* S21, repaired by 8f66353.  Before: REFUTED for a host writer with unrestricted joins: the host detects a
+   (queued), writes b, a client joins and gets the snapshot b, THEN the queued a is broadcast: the new client
+   showed b, a, (b) ([C10_host_join_refuted], deleted).  Now the join first sends the queued a to the clients
+   connected so far; the joiner gets the snapshot b only.  The former witness trace (n = 0, joiner 1): its
+   first six events still run, the joiner shows 20 only; the seventh event (delivery of the stale 10 to the
+   joiner) has nothing to deliver any more. *)
+Definition ex_host_join_old : list vevent :=
   [VWrite 0 10; VDetect 0; VWrite 0 20; VJoin 1; VSend 0; VDeliver 0 1; VDeliver 0 1;
    VDetect 0; VSend 0; VDeliver 0 1; VDetect 1].
-Theorem C10_host_join_refuted :
-  exists n w tr s' p,
-    vrun (vinit n) tr = Some s' /\ only_writer w tr /\ p <> w /\
-    ~ displayed p (vinit n) tr `sublist_of` written tr.
+Example C10_host_join_old_witness_fixed :
+  only_writer 0 ex_host_join_old /\
+  written ex_host_join_old = [10; 20] /\
+  displayed 1 (vinit 0) ex_host_join_old = [20] /\
+  displayed 1 (vinit 0) ex_host_join_old `sublist_of` written ex_host_join_old /\
+  (fun s => (view s [0; 1], link s 0 1)) <$> vrun (vinit 0) (take 6 ex_host_join_old) = Some (([Some 20; Some 20], false), []) /\
+  vrun (vinit 0) (take 7 ex_host_join_old) = None.
 Proof.
-  exists 0%nat, 0, ex_host_join.
-  destruct (vrun (vinit 0) ex_host_join) as [s'|] eqn:Hrun; [|vm_compute in Hrun; discriminate].
-  exists s', 1. split; [reflexivity|]. split; [unfold only_writer; vm_compute; repeat constructor|].
-  split; [discriminate|].
-  assert (Hd : displayed 1 (vinit 0) ex_host_join = [20; 10; 20]) by (vm_compute; reflexivity).
-  assert (Hw : written ex_host_join = [10; 20]) by (vm_compute; reflexivity).
-  rewrite Hd, Hw. intros H. apply sublist_length in H. simpl in H. lia.
+  split; [unfold only_writer; vm_compute; repeat constructor|].
+  split; [vm_compute; reflexivity|].
+  assert (Hd : displayed 1 (vinit 0) ex_host_join_old = [20]) by (vm_compute; reflexivity).
+  split; [exact Hd|]. split; [|vm_compute; auto].
+  rewrite Hd. change (written ex_host_join_old) with [10; 20]. apply sublist_cons. reflexivity.
 Qed.
-Example C10_host_join_still_converges :
-  joins_clean (vinit 0) ex_host_join = false /\
-  (fun s => view s [0; 1]) <$> vrun (vinit 0) ex_host_join = Some ([Some 20; Some 20], true).
-Proof. vm_compute. auto. Qed.
+(* the same scenario with a client connected before (n = 1, joiner 2), run to quiescence: the join is NOT
+   [joins_clean]; it hands the queued 10 to client 1 and the snapshot 20 to the joiner; client 1 shows
+   10, 20, the joiner 20; [C10_single_writer_any_join] applies *)
+Definition ex_host_join : list vevent :=
+  [VWrite 0 10; VDetect 0; VWrite 0 20; VJoin 2; VSend 0; VDeliver 0 2; VDeliver 0 1;
+   VDetect 0; VSend 0; VDeliver 0 1; VDeliver 0 2; VDetect 1; VDetect 2].
+Example C10_host_join_example :
+  only_writer 0 ex_host_join /\ joins_clean (vinit 1) ex_host_join = false /\
+  written ex_host_join = [10; 20] /\
+  (fun s => (link s 0 1, link s 0 2, poutq s 0)) <$> vrun (vinit 1) (take 4 ex_host_join) = Some ([10], [20], []) /\
+  displayed 1 (vinit 1) ex_host_join = [10; 20] /\ displayed 2 (vinit 1) ex_host_join = [20] /\
+  (fun s => view s [0; 1; 2]) <$> vrun (vinit 1) ex_host_join = Some ([Some 20; Some 20; Some 20], true).
+Proof. split; [unfold only_writer; vm_compute; repeat constructor|]. vm_compute. auto 10. Qed.
 
 (* ================================================================================================
    Part 7: joins
@@ -1939,7 +2109,6 @@ Example traffic_tight :
 Proof. vm_compute. auto. Qed.
 
 Print Assumptions C02_join_window_refuted.
-Print Assumptions C10_host_join_refuted.
 Print Assumptions relay_loses_nothing.
 Print Assumptions single_writer_discipline.
 
@@ -2003,7 +2172,8 @@ Lemma step_getp s e s' q :
           | [] => getp s dst
           end
         else getp s q
-    | VJoin _ => getp s q
+    | VJoin _ =>   (* the flush of the host's queue: as [VSend host] *)
+        if decide (q = host) then VPeer (pcur s host) (pdirty s host) (ptoken s host) [] else getp s q
     end.
 Proof.
   intros Hstep. destruct e as [p v|p|p|src dst|c].
@@ -2026,7 +2196,8 @@ Proof.
       unfold getp; simpl; rewrite Hx; reflexivity.
     + destruct (decide (q = dst)) as [->|Hne]; [apply getp_insert|].
       destruct s; simpl. rewrite getp_insert_ne by exact Hne. reflexivity.
-  - apply step_join in Hstep as (_ & _ & _ & _ & _ & Hg & _). apply Hg.
+  - apply step_join in Hstep as (_ & _ & _ & _ & _ & _ & Hj).
+    apply step_join0 in Hj as (_ & _ & _ & _ & _ & Hg & _). rewrite Hg. apply vflush_host_getp.
 Qed.
 
 Lemma step_conn s e s' :
@@ -2058,6 +2229,8 @@ Proof.
   - destruct (decide (p = dst)) as [->|Hne]; auto.
     destruct (link s src dst) as [|v rest]; auto. destruct (bool_decide _); auto.
     unfold armedx, pdirty, poutq; simpl. rewrite andb_false_r, orb_false_r. intros ->. left. reflexivity.
+  - destruct (decide (p = host)) as [->|Hne]; auto.
+    unfold armedx, pdirty, ptoken; simpl. intros ->. left. apply orb_true_r.
 Qed.
 
 (* [varmed] is raised by nothing but a write of that very peer *)
@@ -2526,12 +2699,12 @@ Lemma others_length_lt src l : src ∈ l -> length (others src l) < length l.
 Proof. intros Hin. unfold others. eapply filter_length_lt; [exact Hin|]. intros H. apply H. reflexivity. Qed.
 
 (* one step: what is sent is paid by the potential, a write adds at most M, a join its snapshot *)
-Lemma traffic_any_step M s e s1 :
-  vwf s -> vstep s e = Some s1 -> length (vconn s1) <= M ->
+Lemma traffic_any_step0 M s e s1 :
+  vwf s -> vstep0 s e = Some s1 -> length (vconn s1) <= M ->
   sent_by s e + vpot M s1 <= vpot M s + ev_budget M e.
 Proof.
   intros Hwf Hstep HM. rewrite !vpot_eq. set (F := fun _ : peer => armed_units).
-  destruct e as [p v|p|p|src dst|c]; simpl ev_budget.
+  destruct e as [p v|p|p|src dst|c]; simpl ev_budget; cbn [vstep0] in Hstep.
   - (* write *)
     apply step_write in Hstep as (Hex & Hc & Hl & _ & Hp & Hq).
     assert (Hu : up_msgs s1 = up_msgs s) by (apply up_same; [exact Hc|intros; unfold link; rewrite Hl; reflexivity]).
@@ -2610,7 +2783,7 @@ Proof.
       destruct M as [|m]; [lia|]. replace (S m - 1) with m by lia.
       destruct (bool_decide _); nia.
   - (* join *)
-    apply step_join in Hstep as (Hch & Hcn & Hnone & Hc & _ & Hg & Hl).
+    apply step_join0 in Hstep as (Hch & Hcn & Hnone & Hc & _ & Hg & Hl).
     assert (HP : psum F s1 = psum F s).
     { unfold psum. rewrite Hc. change (host :: vconn s ++ [c]) with ((host :: vconn s) ++ [c]).
       rewrite sum_with_snoc. rewrite (sum_with_ext _ (fun p => F p (getp s p))) by (intros x _; rewrite Hg; reflexivity).
@@ -2624,6 +2797,34 @@ Proof.
         inversion E; subst. contradiction. }
     rewrite HP, Hu. simpl sent_by. destruct (pcur s host); lia.
 Qed.
+
+(* the messages a join hands to the network on behalf of the flush of the host's queue (repair of S21); they
+   are NOT counted by [sent_by s (VJoin c)], which counts the snapshot only *)
+Definition flush_sent (s : vstate) (e : vevent) : nat :=
+  match e with VJoin _ => sent_by s (VSend host) | _ => 0 end.
+
+(* ... they are paid by the potential as well: the bound holds with them *)
+Lemma traffic_any_step_flush M s e s1 :
+  vwf s -> vstep s e = Some s1 -> length (vconn s1) <= M ->
+  flush_sent s e + sent_by s e + vpot M s1 <= vpot M s + ev_budget M e.
+Proof.
+  intros Hwf Hstep HM. pose proof (vstep_split _ _ _ Hwf Hstep) as Hsp.
+  destruct e as [p v|p|p|src dst|c]; try (apply (traffic_any_step0 M s _ s1 Hwf Hsp HM)).
+  destruct Hsp as [H1 H2].
+  pose proof (step_wf0 _ _ _ Hwf H1) as Hwf0.
+  pose proof (traffic_any_step0 M _ _ s1 Hwf0 H2 HM) as Hj.
+  assert (HM0 : length (vconn (vflush_host s)) <= M).
+  { apply step_join0 in H2 as (_ & _ & _ & Hc & _). rewrite Hc, app_length in HM. lia. }
+  pose proof (traffic_any_step0 M s _ _ Hwf H1 HM0) as Hs.
+  assert (Hsb : sent_by (vflush_host s) (VJoin c) = sent_by s (VJoin c)).
+  { simpl. rewrite vflush_host_cur. reflexivity. }
+  rewrite Hsb in Hj. unfold flush_sent. simpl ev_budget in *. lia.
+Qed.
+
+Lemma traffic_any_step M s e s1 :
+  vwf s -> vstep s e = Some s1 -> length (vconn s1) <= M ->
+  sent_by s e + vpot M s1 <= vpot M s + ev_budget M e.
+Proof. intros Hwf Hstep HM. pose proof (traffic_any_step_flush M s e s1 Hwf Hstep HM). lia. Qed.
 
 Lemma step_conn_len s e s1 :
   vstep s e = Some s1 -> length (vconn s1) = length (vconn s) + match e with VJoin _ => 1 | _ => 0 end.
@@ -2673,6 +2874,50 @@ Proof.
   rewrite (vpot_quiescent _ _ (vinit_quiescent n)) in H. lia.
 Qed.
 Print Assumptions traffic_bounded_any.
+
+(* ... INCLUDING the messages a join hands to the network when it flushes the host's queue ([flush_sent],
+   not counted by [sent_by] / [total_sent]): the same bound *)
+Fixpoint total_flush (s : vstate) (tr : list vevent) : nat :=
+  match tr with
+  | [] => 0
+  | e :: tr => match vstep s e with Some s' => flush_sent s e + total_flush s' tr | None => 0 end
+  end.
+
+Lemma traffic_any_flush M tr : forall s,
+  vwf s -> length (vconn s) + length (joiners tr) <= M ->
+  total_flush s tr + total_sent s tr + match vrun s tr with Some s' => vpot M s' | None => 0 end
+  <= vpot M s + length (written tr) * M + length (joiners tr).
+Proof.
+  induction tr as [|e tr IH]; intros s Hwf HM.
+  - simpl. lia.
+  - cbn [total_flush total_sent vrun]. destruct (vstep s e) as [s1|] eqn:Hstep; [|lia].
+    pose proof (step_conn_len s e s1 Hstep) as Hlen.
+    assert (Hwj : length (written (e :: tr)) * M + length (joiners (e :: tr)) =
+                  length (written tr) * M + length (joiners tr) + ev_budget M e /\
+                  length (joiners (e :: tr)) = length (joiners tr) + match e with VJoin _ => 1 | _ => 0 end).
+    { destruct e; simpl; lia. }
+    destruct Hwj as [Hwj Hj].
+    assert (HM1 : length (vconn s1) + length (joiners tr) <= M) by lia.
+    pose proof (IH s1 (step_wf s e s1 Hwf Hstep) HM1) as IH1.
+    pose proof (traffic_any_step_flush M s e s1 Hwf Hstep ltac:(lia)) as Hs.
+    lia.
+Qed.
+
+Theorem traffic_bounded_any_flush n tr :
+  total_flush (vinit n) tr + total_sent (vinit n) tr
+  <= length (written tr) * (n + length (joiners tr)) + length (joiners tr).
+Proof.
+  pose proof (traffic_any_flush (n + length (joiners tr)) tr (vinit n) (vinit_wf n)) as H.
+  simpl vconn in H. rewrite clients_length in H. specialize (H ltac:(lia)).
+  rewrite (vpot_quiescent _ _ (vinit_quiescent n)) in H. lia.
+Qed.
+Print Assumptions traffic_bounded_any_flush.
+
+(* non-vacuity: in [ex_host_join] the join flushes one message (the queued 10, to client 1) *)
+Example traffic_flush_example :
+  total_flush (vinit 1) ex_host_join = 1 /\ total_sent (vinit 1) ex_host_join = 3 /\
+  length (written ex_host_join) * (1 + length (joiners ex_host_join)) + length (joiners ex_host_join) = 5.
+Proof. vm_compute. auto. Qed.
 
 (* the same from any quiescent well-formed state *)
 Theorem traffic_bounded_from_quiescent s tr :
